@@ -286,6 +286,7 @@ def replay(case, conc, cand=None):
 
 
 META = {
+    "glue": ['groupby_lib/nanops.py::count', 'groupby_lib/nanops.py::nanmax', 'groupby_lib/nanops.py::nanmean', 'groupby_lib/nanops.py::nanmin', 'groupby_lib/nanops.py::nanstd', 'groupby_lib/nanops.py::nansum', 'groupby_lib/nanops.py::nanvar', 'groupby_lib/nanops.py::reduce', 'groupby_lib/nanops.py::reduce_1d', 'groupby_lib/nanops.py::reduce_2d', 'groupby_lib/util.py::nb_dot', 'groupby_lib/util.py::parallel_map'],
     "bounds": {"quick": {"length": "1..4", "n_threads": "1..min(4, len+1)", "2-D shapes": "<= 3x2", "var": "length <= 3, every null pattern", "nb_dot": "<= 3x2"},
                "thorough": {"length": "1..7", "n_threads": "1..8 (incl. more threads than elements)", "2-D shapes": "<= 4x3", "var": "length <= 4", "nb_dot": "<= 3x3"}},
     "enumerated": ["array length/shape", "thread count", "null pattern for nanvar/nanstd (the count becomes a constant)", "ddof"],
